@@ -165,6 +165,7 @@ def write_shards(d, rows, per):
     return idx_map, unparsed
 
 
+@vflib.serialized("run_pg")
 def run_pg(tier, seed, corpus=None, histories=None):
     """dict(rows, failing {row idx: {...}}, ksql {row idx: [action idx]}, errors, meta, dir) or {build_error|coq_error}"""
     sz = sizes(tier)
